@@ -22,6 +22,22 @@ CLAIMED = {
             "Trusted: TLC, the rewrite rules R1-R4 as the definition of a valid encoding, the independent byte "
             "encoder harness/enc.py and projection harness/proj.py.",
             "DESIGN.md 3.3, 5/C02"),
+    "C03": ("TLA+ TdmsOpenFile: access-path table, chunk streams and offsets (invariant PathsAgree) checked by TLC; every "
+            "enumerated two-channel shape replayed through all access paths x memmap x raw_timestamps x path/stream",
+            "Model checking of the stream structure (offsets = running count, streams cover the channel) and "
+            "spec->code conformance: every enabled access path (slice, ellipsis, read_data, data, iteration, integer "
+            "indexing, both chunk streams, unscaled read, raw_data) must return the file's content, eager and lazy.",
+            "Trusted: TLC, encoder. Non-raw timestamp representations are compared between paths (C12 owns accuracy); "
+            "scaled/DAQmx channels go through the same paths in C13/C14/C11.",
+            "DESIGN.md 3.4, 5/C03"),
+    "C05": ("TLA+ TdmsOpenFile: TLC explores every interleaving (unbounded length) of index/window/generator operations "
+            "over the finite hidden state (cursor, chunk cache, live generators) checking HistoryIndependentAct; "
+            "behaviours (exhaustive short, simulated long) replayed on one TdmsFile.open object",
+            "Full-state-graph model checking of the open-file state machine on shapes separating the mechanisms, plus "
+            "spec->code conformance: each generated history is executed step by step on one open file and every "
+            "result compared with the specification's (= fresh-file) result; generators must deliver every chunk.",
+            "Trusted: TLC, encoder. Cursor positions abstracted to chunk boundaries; binding is on results only.",
+            "DESIGN.md 3.4, 5/C05"),
     "C04": ("TLA+ TdmsData: TLC checks the algorithm model of read_raw_data_for_channel/_read_slice/"
             "read_channel_chunk_for_index against Python/NumPy indexing semantics over all shapes x requests; every "
             "shape with all its requests replayed into lazily opened and eagerly read files",
